@@ -104,7 +104,7 @@ kw = ["Accepted publickey", "Accepted password", "Certificate invalid", "Invalid
 def c11runs(NQ, NT, TQ, TT):
     runs = [run("arbitrary", SSHD, "VerifC11Arbitrary", q({"N": NQ}, ascii7=False), t({"N": NT}), reach=["c11.nothing"],
                 bounds="line: any bytes, 0..N; pid token: any bytes, 0..3")]
-    need = {0: 56, 4: 48, 9: 60}  # tails long enough for a recognised message (for kw00: a second, complete message after the keyword)
+    need = {0: 56, 4: 48, 7: 34, 9: 60}  # tails long enough for a recognised message (for kw00: a second, complete message after the keyword)
     for i, k in enumerate(kw):
         runs.append(run("kw%02d" % i, SSHD, "VerifC11Keyword", q({"K": i, "T": max(TQ, need.get(i, 0))}, ascii7=False), t({"K": i, "T": max(TT, need.get(i, 0) + 8)}), reach=(["c11.event"] if i == 2 else ["c11.event", "c11.nothing"]),
                         bounds="keyword %r + any bytes 0..T; pid token any bytes 0..3" % k))
@@ -156,10 +156,12 @@ DIRR = M + "/processors/auditd/dirreader"
 write("C20", [run("sort", DIRR, "VerifC20Sort", {"params": {"N": 3, "D": 3}}, {"params": {"N": 4, "D": 3}}, reach=["c20.sort.pair"],
                   bounds="N directory entries from {audit.log, audit.log.<1..D digits, no leading zero, optionally a directory>, foreign name}"),
               run("tail", DIRR, "VerifC20Tail", {"params": {"K": 3, "B": 2}}, {"params": {"K": 4, "B": 3}}, reach=["c20.tail.line", "c20.tail.partial", "c20.tail.rotate", "c20.tail.truncate"],
-                  bounds="K operations from {append line, append two lines, append fragment, append newline, rotate, truncate}; fragments of B symbolic bytes; optional initial content (one line + one fragment)")],
+                  bounds="K operations from {append line, append two lines, append fragment, append newline, rotate, truncate}; fragments of B symbolic bytes; optional initial content (one line + one fragment)"),
+              run("long-line", DIRR, "VerifC20LongLine", {"params": {"L": 4200}, "max_steps": 30000000}, {"params": {"L": 9000}, "max_steps": 60000000}, reach=["c20.long.read"],
+                  bounds="readLines on 'first', a line of L+3 bytes (non-uniform concrete filler, symbolic first two and last byte), 'last'")],
       ["each file-system event is processed before the next change (the property's proviso)", "in-memory file system written in the harness; sort.Slice modelled as insertion sort calling the real less closure",
        "a truncation is visible as a size decrease (the statement's 'truncation'); stubs: sync/atomic"],
-      ["lines longer than bufio's 4096-byte buffer", "real inotify coalescing", "the watcher loop (loopWithError) around read()"], site_prefix="c20.")
+      ["lines longer than bufio's 4096-byte buffer with arbitrary content (one long line with concrete filler is covered)", "real inotify coalescing", "the watcher loop (loopWithError) around read()"], site_prefix="c20.")
 
 # ---- C12
 NP = M + "/ingesters/namedpipe"
@@ -227,11 +229,17 @@ write("C13", c13, ["cancellation is injected once every goroutine of the worker 
 
 # ---- C03
 c03 = []
-for prog, nm, pq, pt in ((1, "login-vs-session", 2, -1), (2, "plus-other-session", 1, 2), (3, "plus-cleanup", 1, 2), (4, "all-four", 0, 1)):
-    c03.append(run(nm, TRK, "VerifC03Concurrent", {"params": {"PROG": prog}, "preempt": pq, "max_steps": 20000000, "race": True}, {"params": {"PROG": prog}, "preempt": pt, "max_steps": 50000000, "race": True},
+for prog, nm, pq, pt in ((1, "login-vs-session", 2, 6), (2, "plus-other-session", 1, 2), (3, "plus-cleanup", 1, 2), (4, "all-four", 0, "any number of preemptions, at most 2 departures from the canonical schedule (delay bound 2)")):
+    thor = {"params": {"PROG": prog}, "preempt": pt, "max_steps": 50000000, "race": True}
+    if prog == 4:
+        thor.update({"preempt": -1, "delays": 2})
+    c03.append(run(nm, TRK, "VerifC03Concurrent", {"params": {"PROG": prog}, "preempt": pq, "max_steps": 20000000, "race": True}, thor,
                    reach=["c03.all-returned"] + (["c03.matching-pid"] if prog <= 2 else []),
                    bounds="program %d: RemoteLogin(p) || AuditdEvent(LOGIN s,p'); AuditdEvent(e,s)%s%s; p,p' symbolic (equal and unequal); interleavings at lock-acquisition granularity, preemption bound %s (quick) / %s (thorough)" % (
-                       prog, " || two events of another session" if prog in (2, 4) else "", " || both cleanup calls" if prog in (3, 4) else "", pq, "unbounded" if pt < 0 else pt)))
+                       prog, " || two events of another session" if prog in (2, 4) else "", " || both cleanup calls" if prog in (3, 4) else "", pq, pt)))
+c03.append(run("cleanup-after-own-login", TRK, "VerifC03Concurrent", {"params": {"PROG": 5}, "preempt": 2, "max_steps": 20000000, "race": True}, {"params": {"PROG": 5}, "preempt": 4, "max_steps": 50000000, "race": True},
+               reach=["c03.all-returned"],
+               bounds="program 5: RemoteLogin(p); DeleteRemoteUserLoginsBefore(far future) || AuditdEvent(LOGIN s2,p2); AuditdEvent(e,s2); probe: LOGIN record of p; preemption bound 2 (quick) / 4 (thorough)"))
 write("C03", c03, ["the sequential reference is computed by the same harness on fresh trackers for every order of the same deliveries; observations = emissions in order with session, action and identity, plus a probe event that exposes the residual state",
                    "cleanup cut-offs are far in the past or far in the future, so the outcome of a run does not depend on exact clock readings",
                    "code between two synchronisation operations runs atomically in the engine; that abstraction is justified by the vector-clock happens-before detector (race.go) that runs on every heap cell and map access of these programs - a race is obligation 'norace'",
